@@ -284,6 +284,36 @@ func c20R3(c *Ctx) {
 			c.ok("recvPrefixHash/size-before-steps", c.pos(rp.Pos()), "a size is told to the progress before the first step of the resume comparison")
 		}
 	}
+	// the size steps of both ends tell the bar the size they exchanged (and nothing else of the same signature): with a
+	// progress callback present no successful exit of the step avoids onSize(size)
+	for _, nm := range []string{"trzszTransfer.sendFileSize", "trzszTransfer.recvFileSize"} {
+		g := c.fn(nm)
+		isSizeCall := func(in ssa.Instruction) bool {
+			ci, ok := in.(ssa.CallInstruction)
+			return ok && ci.Common().IsInvoke() && ci.Common().Method.Name() == "onSize"
+		}
+		hitZ, pathZ := reachFromE(g.Blocks[0], 0, isNilErrReturn, isSizeCall, func(from, to *ssa.BasicBlock) bool {
+			for _, fc := range edgeFactsTo(from, to) {
+				op, x, y, ok := cmpFact(fc)
+				if ok && op == token.EQL && isNilConst(y) && isVar("progress")(x) {
+					return true
+				}
+			}
+			return false
+		})
+		c.check(hitZ == nil, nm+"/tells-the-bar-the-size", c.pos(g.Pos()), "the size step always tells the progress the file's size", "the size step can succeed without telling the progress the size: the percentage is computed against the previous file's size or zero", c.pathStr(pathZ)...)
+		eachInstr(g, func(in ssa.Instruction) {
+			if !isSizeCall(in) {
+				return
+			}
+			arg := in.(ssa.CallInstruction).Common().Args[0]
+			okA := isVar("size")(arg)
+			if call, idx := callOf(arg); call != nil && idx == 0 && calleeID(&call.Call) == tT+"recvInteger" {
+				okA = true
+			}
+			c.check(okA, nm+"/onSize=exchanged-size", c.ipos(in), "the size shown is the size exchanged", "the size shown is not the size exchanged in this step")
+		})
+	}
 	// the size a step is measured against is the whole source size on both ends of a resume
 	for _, nm := range []struct{ fn string }{{"trzszTransfer.sendPrefixHash"}, {"trzszTransfer.recvPrefixHash"}} {
 		g := c.fn(nm.fn)
